@@ -110,6 +110,14 @@ def r1h(ctx):
             yield VIOL("C02-R1h", "from_header/%s/source" % f, "builder.%s is fed from parameter key(s) %s (expected %r via latin1_to_string)" % (f, keys, key), where=b.span_of_block(cs[0][0]))
         else:
             yield PASS("C02-R1h", "from_header/%s/source" % f, "<= latin1_to_string(parameter_map[%r])" % key, [site(b, cs[0][0], f)])
+            # ... and as it is: between the parameter map and the builder nothing cuts, replaces, decodes or re-cases the text
+            # (the header carrier is NOT percent-decoded: `AKID%2F2015..` is one credential part, not five)
+            direct = b.slice_op(cs[0][1]["args"][1], stop_at_calls=lambda t_: bool(re.search(r"HashMap::<K, V, S, A>::get$", t_.get("callee", ""))))
+            part = [c_ for c_ in direct.callee_names() if re.search(PARTIAL, c_) or re.search(r"unescape_uri_encoding$|percent|decode$", c_)]
+            if part:
+                yield VIOL("C02-R1h", "from_header/%s/whole-value" % f, "the `%s` parameter of the Authorization header is altered before it is used (through %s): what is checked and looked up is not what the client sent" % (key.decode(), sorted(set(x.split("::")[-1] for x in part))), where=b.span_of_block(cs[0][0]))
+            else:
+                yield PASS("C02-R1h", "from_header/%s/whole-value" % f, "%s = latin1_to_string(whole parameter value)" % f, [site(b, cs[0][0], f)])
     ag = one(b.aggregates(adt=r"canonical::AuthParams$"), "AuthParams construction in from_auth_header")
     fields = dict(zip(ag[2]["rv"]["fields"], ag[2]["rv"]["ops"]))
     sh = b.slice_op(fields["signed_headers"])
